@@ -39,6 +39,7 @@ CRITICAL_EXTENSION = 57
 NOT_CA = 58
 FORBIDDEN_KEY_USAGE = 59
 WEAK_PUBLIC_KEY = 60
+LIMIT_EXCEEDED = 50
 NOT_TRUSTED = 62
 
 KEYX = 0x10
@@ -252,6 +253,18 @@ def key_errors(c, minrsa):
             return [(UNSUPPORTED, 'curve-unsupported')]
     if k['kind'] == 'rsa' and k['nbytes'] < minrsa:
         return [(WEAK_PUBLIC_KEY, 'rsa-weak')]
+    # "key or signature size exceeds internal limits" (BR_ERR_X509_LIMIT_EXCEEDED): modulus and exponent share a buffer of
+    # BR_X509_BUFSIZE_KEY = 520 bytes
+    if k['kind'] == 'rsa' and k['nbytes'] + (k['e'].bit_length() + 7) // 8 > 520:
+        return [(LIMIT_EXCEEDED, 'rsa-key-above-buffer')]
+    return []
+
+
+def sig_size_errors(c):
+    # a signature value longer than BR_X509_BUFSIZE_SIG = 512 bytes (an RSA signer above 4096 bits)
+    k = load_keys()[c['sig']['signer']]
+    if c['sig']['alg'] == 'rsa' and k['kind'] == 'rsa' and k['nbytes'] > 512:
+        return [(LIMIT_EXCEEDED, 'signature-above-buffer')]
     return []
 
 
@@ -322,6 +335,7 @@ def validate(case):
         if not is_ee and not dn_equal(c['subject'], chain[i - 1]['issuer']):
             errs.append((DN_MISMATCH, 'subject-vs-issuer'))
         errs += key_errors(c, minrsa)
+        errs += sig_size_errors(c)
         if not is_ee:
             code, why = sig_verifies(chain[i - 1], c['key'], c.get('spki'), case)
             if code:
